@@ -1,7 +1,8 @@
 /-
   C17 — DNS records and names decode as a reference decoder; merges are monotone.
   Property theorems only; helper lemmas live in `Lemmas/DnsSpec.lean`, `Lemmas/DnsRR.lean`,
-  `Lemmas/Naming.lean`.
+  `Lemmas/Naming.lean`, `Lemmas/DnsRRComplete.lean` (reference fold `refEntry`, first-wins lists),
+  `Lemmas/Nbns.lean` (`firstNodeName`, the answer scan `NbnsScan`).
 
   Reference: `Spec.NameAt` (RFC 1035 §3.1/§4.1.4 as finite derivations: labels of 1..63 octets,
   root octet, pointers only to positions strictly before the name that contains them) and
@@ -13,11 +14,13 @@
   former and refreshes the latter only together with an attribute change (stated below).
 -/
 import PacketVerif.Lemmas.DnsRRSpec
+import PacketVerif.Lemmas.DnsRRComplete
 import PacketVerif.Lemmas.Naming
 import PacketVerif.Lemmas.DnsMsgSpec
 import PacketVerif.Lemmas.DnsMsg
+import PacketVerif.Lemmas.Nbns
 namespace PV.Props.C17
-open PV PV.Model PV.Spec PV.Lemmas.Dns PV.Lemmas.Naming
+open PV PV.Model PV.Spec PV.Lemmas.Dns PV.Lemmas.Naming PV.Lemmas.Nbns
 
 /-! ### names -/
 
@@ -434,6 +437,225 @@ theorem processDNS_eq_spec (ip6 : Bytes → PtrIP) (m : Bytes) (q : Spec.Questio
     | panic => rw [hdq] at hp; simp at hp
     | hang => rw [hdq] at hp; simp at hp
 
+/-! ### completeness of the ProcessDNS fold -/
+
+/-- the RDATA of a CNAME / PTR record holds a reference name assembled from at most 254 pointers -/
+def TargetOK (m : Bytes) (r : RR) : Prop :=
+  ∃ t e d, decodeName? m r.rdataOff = some (t, e, d) ∧ d ≤ 254
+
+/-- **shape of a reference record `r` at offset `off` that `decodeRR` gets past**: owner name with
+    at most 254 pointers; A with 4 and AAAA with 16 bytes of RDATA; CNAME with a reference target;
+    PTR whose owner (".in-addr.arpa" stripped) is a textual IP address — IPv6: skipped, IPv4:
+    reference target needed; every other type (MX, TXT, SOA, OPT, …) is unconstrained.
+    (`decodeRR_rejects` shows the A / AAAA / PTR-owner conditions are necessary.) -/
+def RecOK (ip6 : Bytes → PtrIP) (m : Bytes) (off : Nat) (r : RR) : Prop :=
+  depthAt m off ≤ 254 ∧
+  (r.rtype = 1 → r.rdata.length = 4) ∧
+  (r.rtype = 28 → r.rdata.length = 16) ∧
+  (r.rtype = 5 → TargetOK m r) ∧
+  (r.rtype = 12 → parsePtrIP ip6 (trimSuffix r.name inAddrArpa) = .v6 ∨
+    ((∃ a b c d, parsePtrIP ip6 (trimSuffix r.name inAddrArpa) = .v4 a b c d) ∧ TargetOK m r))
+
+/-- **records the model skips**: a well-formed record of any type other than A / AAAA / CNAME /
+    PTR (MX included), or a PTR record whose owner is an IPv6 reverse name, leaves the entry
+    untouched and advances to the reference end of the record whatever its RDATA holds. -/
+theorem decodeRR_skip_eq_spec (ip6 : Bytes → PtrIP) (ent : DNSEntry) (m : Bytes) (off : Nat) (r : RR) (o : Nat)
+    (h : rrAt? m off = some (r, o)) (hd : depthAt m off ≤ 254)
+    (hskip : (r.rtype ≠ 1 ∧ r.rtype ≠ 28 ∧ r.rtype ≠ 5 ∧ r.rtype ≠ 12) ∨
+      (r.rtype = 12 ∧ parsePtrIP ip6 (trimSuffix r.name inAddrArpa) = .v6)) :
+    decodeRR ip6 ent m off = .ok (ent, o, false) := by
+  obtain ⟨e, d', rdl, hn, h1, h2, h3, h4, h5, h6, rfl⟩ := rrAt_facts h
+  simp only [depthAt, hn] at hd
+  obtain ⟨hdn, _, _⟩ := decodeName_of_spec hn hd
+  obtain ⟨r1, _⟩ := rd16_of_u16At h1
+  obtain ⟨r2, _⟩ := rd32_of_u32At h2
+  obtain ⟨r3, _⟩ := rd16_of_u16At h3
+  unfold decodeRR
+  rw [hdn]
+  simp only []
+  rw [if_neg (by omega), r1, r2, r3]
+  simp only []
+  rw [if_neg (by omega)]
+  rcases hskip with ⟨n1, n28, n5, n12⟩ | ⟨h12, hv6⟩
+  · rw [if_neg n1, if_neg n28, if_neg n5]
+    split
+    · rfl
+    · first | rfl | rw [if_neg n12]
+  · rw [h12, if_neg (by decide), if_neg (by decide), if_neg (by decide), if_neg (by decide), if_pos rfl, hv6]
+
+/-- **records the model rejects** (why `RecOK` asks for what it asks): an A record whose RDATA is
+    not 4 bytes, an AAAA record whose RDATA is not 16 bytes and a PTR record whose owner is not a
+    textual IP address make `decodeRR` — hence the whole ProcessDNS call — fail. -/
+theorem decodeRR_rejects (ip6 : Bytes → PtrIP) (ent : DNSEntry) (m : Bytes) (off : Nat) (r : RR) (o : Nat)
+    (h : rrAt? m off = some (r, o)) (hd : depthAt m off ≤ 254)
+    (hbad : (r.rtype = 1 ∧ r.rdata.length ≠ 4) ∨ (r.rtype = 28 ∧ r.rdata.length ≠ 16) ∨
+      (r.rtype = 12 ∧ parsePtrIP ip6 (trimSuffix r.name inAddrArpa) = .invalid)) :
+    ∃ er, decodeRR ip6 ent m off = .err er := by
+  obtain ⟨e, d', rdl, hn, h1, h2, h3, h4, h5, h6, rfl⟩ := rrAt_facts h
+  simp only [depthAt, hn] at hd
+  obtain ⟨hdn, _, _⟩ := decodeName_of_spec hn hd
+  obtain ⟨r1, _⟩ := rd16_of_u16At h1
+  obtain ⟨r2, _⟩ := rd32_of_u32At h2
+  obtain ⟨r3, _⟩ := rd16_of_u16At h3
+  have hlen : r.rdata.length = rdl := by rw [h5]; simp; omega
+  unfold decodeRR
+  rw [hdn]
+  simp only []
+  rw [if_neg (by omega), r1, r2, r3]
+  simp only []
+  rw [if_neg (by omega)]
+  rcases hbad with ⟨ht, hl⟩ | ⟨ht, hl⟩ | ⟨ht, hinv⟩
+  · rw [ht, if_pos rfl, if_pos (by omega)]; exact ⟨_, rfl⟩
+  · rw [ht, if_neg (by decide), if_pos rfl, if_pos (by omega)]; exact ⟨_, rfl⟩
+  · rw [ht, if_neg (by decide), if_neg (by decide), if_neg (by decide), if_neg (by decide), if_pos rfl, hinv]
+    exact ⟨_, rfl⟩
+
+/-- **one record = one step of the reference fold**: on every reference record of the shape
+    `RecOK`, `decodeRR` returns the entry with the record's candidate inserted first-wins
+    (`specStep`), the reference end offset, and `updated` exactly when the entry changed.
+    Assembled from `decodeRR_A/AAAA/CNAME/PTR/skip_eq_spec`. -/
+theorem decodeRR_eq_specStep (ip6 : Bytes → PtrIP) (ent : DNSEntry) (m : Bytes) (off : Nat) (r : RR) (o : Nat)
+    (h : rrAt? m off = some (r, o)) (hok : RecOK ip6 m off r) :
+    decodeRR ip6 ent m off = .ok (specStep ip6 m ent r, o, decide (specStep ip6 m ent r ≠ ent)) := by
+  obtain ⟨hd, hA, h6, hC, hP⟩ := hok
+  by_cases t1 : r.rtype = 1
+  · rw [decodeRR_A_eq_spec ip6 ent m off r o h hd t1 (hA t1), specStep_A ip6 m ent r o t1 (hA t1)]
+  by_cases t28 : r.rtype = 28
+  · rw [decodeRR_AAAA_eq_spec ip6 ent m off r o h hd t28 (h6 t28), specStep_AAAA ip6 m ent r o t28 (h6 t28)]
+  by_cases t5 : r.rtype = 5
+  · obtain ⟨ct, ce, cd, hc, hcd⟩ := hC t5
+    rw [decodeRR_CNAME_eq_spec ip6 ent m off r o ct ce cd h hd t5 hc hcd, specStep_CNAME ip6 m ent r o ct ce cd t5 hc]
+  by_cases t12 : r.rtype = 12
+  · rcases hP t12 with hv6 | ⟨⟨a, b, c, d, hip⟩, pt, pe, pd, hc, hpd⟩
+    · rw [decodeRR_skip_eq_spec ip6 ent m off r o h hd (Or.inr ⟨t12, hv6⟩), specStep_skip ip6 m ent r o (Or.inr ⟨t12, hv6⟩)]
+    · rw [decodeRR_PTR_eq_spec ip6 ent m off r o pt pe pd a b c d h hd t12 hip hc hpd,
+        specStep_PTR ip6 m ent r o pt pe pd a b c d t12 hip hc]
+  · rw [decodeRR_skip_eq_spec ip6 ent m off r o h hd (Or.inl ⟨t1, t28, t5, t12⟩),
+      specStep_skip ip6 m ent r o (Or.inl ⟨t1, t28, t5, t12⟩)]
+
+/-- **ProcessDNS is complete (and exact) against the reference decoder.**  For a message whose
+    question (QDCOUNT = 1, at offset 12) and answer section (ANCOUNT records after it) the
+    reference decodes, with at most 254 compression pointers in the question name, and whose
+    every answer record — the record the reference finds after any `k < ANCOUNT` records — has
+    the shape `RecOK`, ProcessDNS on a fresh table returns and stores exactly `refEntry`: the
+    reference question name and, per map, the reference A / AAAA / CNAME / PTR records in message
+    order with the first record per key winning (A / AAAA keyed by address, CNAME by owner, PTR
+    by target name).  When no record is storable (`refEntry` is the empty entry) it returns the
+    zero entry (`none`) and stores nothing. -/
+theorem processDNS_complete (ip6 : Bytes → PtrIP) (m : Bytes) (q : Spec.Question) (qe : Nat) (rrs : List Spec.RR) (o an : Nat)
+    (hq : questionAt? m 12 = some (q, qe)) (hqd : u16At m 4 = some 1) (hqdep : depthAt m 12 ≤ 254)
+    (han : u16At m 6 = some an) (hrr : rrsAt? m an qe = some (rrs, o))
+    (hok : ∀ k pre off r o', k < an → rrsAt? m k qe = some (pre, off) → rrAt? m off = some (r, o') →
+      RecOK ip6 m off r) :
+    processDNS ip6 [] m =
+      (if refEntry ip6 m q.name rrs = DNSEntry.empty q.name then ([], .ok none)
+       else ([(q.name, refEntry ip6 m q.name rrs)], .ok (some (refEntry ip6 m q.name rrs)))) := by
+  have hdq := decodeQuestion_eq_spec m q qe hq hqd hqdep
+  obtain ⟨r6, _⟩ := rd16_of_u16At han
+  have hfold := decodeRRs_complete ip6 m (RecOK ip6 m)
+    (fun ent off r o h hk => decodeRR_eq_specStep ip6 ent m off r o h hk)
+    an (DNSEntry.empty q.name) qe rrs o false hrr hok
+  rw [specFold_empty] at hfold
+  rw [processDNS_of_decode ip6 m _ qe an _ _ _ hdq r6 hfold]
+  by_cases he : refEntry ip6 m q.name rrs = DNSEntry.empty q.name
+  · have hdec : (false || decide (refEntry ip6 m q.name rrs ≠ DNSEntry.empty q.name)) = false := by simp [he]
+    rw [hdec, if_pos he]
+    rfl
+  · have hdec : (false || decide (refEntry ip6 m q.name rrs ≠ DNSEntry.empty q.name)) = true := by simp [he]
+    rw [hdec, if_pos rfl, if_neg he]
+    rfl
+
+/-- **every reference record is present** (membership form of `processDNS_complete`): under the
+    same hypotheses the call returns `e` (as `none` when `e` is empty) with the reference question
+    name such that for every reference record `s` of type A with 4 bytes of RDATA there is a FIRST
+    such record `r` with the address of `s` (no earlier A record has that address) and the stored
+    A entry for that address is exactly `{r.name, r.rdata, r.ttl}`; likewise AAAA (by address),
+    CNAME (by owner name) and IPv4 PTR records (by target name); conversely every stored entry is
+    the candidate of some reference record (`FirstWinsPresent`, both halves), and no map holds
+    two entries with the same key. -/
+theorem processDNS_complete_mem (ip6 : Bytes → PtrIP) (m : Bytes) (q : Spec.Question) (qe : Nat) (rrs : List Spec.RR) (o an : Nat)
+    (hq : questionAt? m 12 = some (q, qe)) (hqd : u16At m 4 = some 1) (hqdep : depthAt m 12 ≤ 254)
+    (han : u16At m 6 = some an) (hrr : rrsAt? m an qe = some (rrs, o))
+    (hok : ∀ k pre off r o', k < an → rrsAt? m k qe = some (pre, off) → rrAt? m off = some (r, o') →
+      RecOK ip6 m off r) :
+    ∃ e : DNSEntry,
+      (processDNS ip6 [] m).2 = .ok (if e = DNSEntry.empty q.name then none else some e) ∧
+      e.name = q.name ∧
+      FirstWinsPresent IPRec.ip candA rrs e.ip4 ∧
+      FirstWinsPresent IPRec.ip candAAAA rrs e.ip6 ∧
+      FirstWinsPresent NameRec.name (candCNAME m) rrs e.cname ∧
+      FirstWinsPresent IPRec.name (candPTR ip6 m) rrs e.ptr ∧
+      (∀ x ∈ e.ip4, ∀ y ∈ e.ip4, x.ip = y.ip → x = y) ∧ (∀ x ∈ e.ip6, ∀ y ∈ e.ip6, x.ip = y.ip → x = y) ∧
+      (∀ x ∈ e.cname, ∀ y ∈ e.cname, x.name = y.name → x = y) ∧ (∀ x ∈ e.ptr, ∀ y ∈ e.ptr, x.name = y.name → x = y) := by
+  refine ⟨refEntry ip6 m q.name rrs, ?_, rfl, firstWins_present _ _ _, firstWins_present _ _ _,
+    firstWins_present _ _ _, firstWins_present _ _ _,
+    fun x hx y hy => firstWins_keys_unique _ _ x y hx hy, fun x hx y hy => firstWins_keys_unique _ _ x y hx hy,
+    fun x hx y hy => firstWins_keys_unique _ _ x y hx hy, fun x hx y hy => firstWins_keys_unique _ _ x y hx hy⟩
+  rw [processDNS_complete ip6 m q qe rrs o an hq hqd hqdep han hrr hok]
+  split <;> rfl
+
+/-- every record of the reference answer list satisfies `RecOK` under the hypothesis of
+    `processDNS_complete` (so `candA s = some _` iff `s.rtype = 1`, etc.) -/
+theorem recOK_of_mem (ip6 : Bytes → PtrIP) (m : Bytes) (qe : Nat) (rrs : List Spec.RR) (o an : Nat)
+    (hrr : rrsAt? m an qe = some (rrs, o))
+    (hok : ∀ k pre off r o', k < an → rrsAt? m k qe = some (pre, off) → rrAt? m off = some (r, o') →
+      RecOK ip6 m off r) :
+    ∀ s ∈ rrs, ∃ off, RecOK ip6 m off s := by
+  intro s hs
+  obtain ⟨k, pre, off, o', hk, h1, h2⟩ := rrsAt_mem an qe rrs o hrr s hs
+  exact ⟨off, hok k pre off s o' hk h1 h2⟩
+
+/-- **address records, spelled out** (A: `t = 1`, 4 bytes; AAAA: `t = 28`, 16 bytes): under the
+    hypotheses of `processDNS_complete`, for EVERY reference record `s` of type A (AAAA) the
+    returned entry holds an entry for the address `s.rdata`, and it carries the owner name and TTL
+    of the FIRST reference A (AAAA) record `r` with that address — no record before `r` is an A
+    (AAAA) record with that address. -/
+theorem processDNS_complete_addr (ip6 : Bytes → PtrIP) (m : Bytes) (q : Spec.Question) (qe : Nat) (rrs : List Spec.RR) (o an : Nat)
+    (hrr : rrsAt? m an qe = some (rrs, o))
+    (hok : ∀ k pre off r o', k < an → rrsAt? m k qe = some (pre, off) → rrAt? m off = some (r, o') →
+      RecOK ip6 m off r) :
+    (∀ s ∈ rrs, s.rtype = 1 → ∃ pre r post, rrs = pre ++ r :: post ∧ r.rtype = 1 ∧ r.rdata = s.rdata ∧
+      (∀ y ∈ pre, y.rtype = 1 → y.rdata ≠ s.rdata) ∧
+      ({ name := r.name, ip := s.rdata, ttl := r.ttl } : IPRec) ∈ (refEntry ip6 m q.name rrs).ip4) ∧
+    (∀ s ∈ rrs, s.rtype = 28 → ∃ pre r post, rrs = pre ++ r :: post ∧ r.rtype = 28 ∧ r.rdata = s.rdata ∧
+      (∀ y ∈ pre, y.rtype = 28 → y.rdata ≠ s.rdata) ∧
+      ({ name := r.name, ip := s.rdata, ttl := r.ttl } : IPRec) ∈ (refEntry ip6 m q.name rrs).ip6) := by
+  constructor
+  · intro s hs ht
+    obtain ⟨off, hrec⟩ := recOK_of_mem ip6 m qe rrs o an hrr hok s hs
+    have hl := hrec.2.1 ht
+    have hc : candA s = some { name := s.name, ip := s.rdata, ttl := s.ttl } := by simp [candA, ht, hl]
+    obtain ⟨pre, r, post, x, h1, h2, h3, h4, h5⟩ := (firstWins_present IPRec.ip candA rrs).1 s hs _ hc
+    simp only [candA] at h2
+    split at h2
+    next hr =>
+      injection h2 with h2
+      subst h2
+      simp only [] at h3
+      refine ⟨pre, r, post, h1, hr.1, h3, ?_, by rw [← h3]; exact h5⟩
+      intro y hy hty heq
+      have hcy : candA y = some { name := y.name, ip := y.rdata, ttl := y.ttl } := by
+        simp [candA, hty, heq, hl]
+      exact h4 y hy _ hcy heq
+    · cases h2
+  · intro s hs ht
+    obtain ⟨off, hrec⟩ := recOK_of_mem ip6 m qe rrs o an hrr hok s hs
+    have hl := hrec.2.2.1 ht
+    have hc : candAAAA s = some { name := s.name, ip := s.rdata, ttl := s.ttl } := by simp [candAAAA, ht, hl]
+    obtain ⟨pre, r, post, x, h1, h2, h3, h4, h5⟩ := (firstWins_present IPRec.ip candAAAA rrs).1 s hs _ hc
+    simp only [candAAAA] at h2
+    split at h2
+    next hr =>
+      injection h2 with h2
+      subst h2
+      simp only [] at h3
+      refine ⟨pre, r, post, h1, hr.1, h3, ?_, by rw [← h3]; exact h5⟩
+      intro y hy hty heq
+      have hcy : candAAAA y = some { name := y.name, ip := y.rdata, ttl := y.ttl } := by
+        simp [candAAAA, hty, heq, hl]
+      exact h4 y hy _ hcy heq
+    · cases h2
+
 /-- **names seen by ProcessMDNS / ProcessNBNS** (`hdr.Name`, question names) come from
     `dnsmessage.Name.unpack`; on a reference name with at most 10 pointers (dnsmessage's limit), no
     dot inside a label and a text form of at most 254 bytes it returns the reference labels each
@@ -471,6 +693,98 @@ theorem nbns_names_eq_spec (n : UInt8) (rest : Bytes) :
          | none => .err .frameLen) :=
   parseNodeNameArray_eq_spec n rest
 
+/-- **processNBNSNodeStatusResponse = reference** on every input: RDATA shorter than 3 bytes or
+    shorter than the array its NUM_NAMES octet announces is refused; otherwise the result is
+    exactly the reference list of unique names (`nodeNameArray` cannot fail then). -/
+theorem nbnsNodeStatus_eq_spec (data : Bytes) :
+    nbnsNodeStatus data =
+      (match data with
+       | [] => .err .invalidLen
+       | n :: rest =>
+         if rest.length < 2 then .err .invalidLen
+         else if rest.length < n.toNat * 18 then .err .frameLen
+         else match nodeNameArray n.toNat rest with
+           | some l => .ok l
+           | none => .err .frameLen) ∧
+    (∀ n rest, data = n :: rest → n.toNat * 18 ≤ rest.length → ∃ l, nodeNameArray n.toNat rest = some l) := by
+  constructor
+  · cases data with
+    | nil => rfl
+    | cons n rest => exact nbnsNodeStatus_cons n rest
+  · intro n rest _ h
+    exact nodeNameArray_total n.toNat rest h
+
+/-- **one iteration of the ProcessNBNS answer loop**, as an equation on every parser state, with
+    the node status decoder replaced by the reference `firstNodeName` (first element of
+    `nodeNameArray`, `none` when the RDATA is too short for itself or holds no unique name):
+    end of section → no name, no error; unreadable header / body, failing skip → error flag, no
+    name; NBSTAT (type 0x21) answer → its first unique name exactly as `nodeNameArray` yields it
+    (NUL then space padding stripped, nothing else trimmed) — or, when there is none, on to the
+    next record (the decoder's error is dropped); any other type → skipped. -/
+theorem nbnsStep_name_eq_spec (p : DnsMsg.Parser) :
+    DnsMsg.nbnsStep p =
+      (match DnsMsg.resourceHeader p DnsMsg.secAnswers with
+       | (_, .error .sectionDone) => .done (.ok { type := DnsMsg.sNbns, name := [], err := false })
+       | (_, .error _) => .done (.ok { type := DnsMsg.sNbns, name := [], err := true })
+       | (p1, .ok hdr) =>
+         if hdr.rtype = 0x21 then
+           match DnsMsg.typedResource p1 (fun _ => true) DnsMsg.unpackUnknown with
+           | (_, .error _) => .done (.ok { type := DnsMsg.sNbns, name := [], err := true })
+           | (p2, .ok data) =>
+             match firstNodeName data with
+             | some x => .done (.ok { type := DnsMsg.sNbns, name := x, err := false })
+             | none => .next p2
+         else
+           match DnsMsg.skipResource p1 DnsMsg.secAnswers with
+           | (p2, none) => .next p2
+           | (_, some _) => .done (.ok { type := DnsMsg.sNbns, name := [], err := true })) :=
+  nbnsStep_eq_spec p
+
+/-- **ProcessNBNS reports the first unique name of the reference NODE_NAME array** — complete
+    case distinction over every returning call:
+    (1) payload shorter than a DNS header, header unreadable, or a question that cannot be
+        skipped: error flag, no name, no type;
+    (2) a query (QR = 0): nothing at all;
+    (3) a response: the result is the one the answer scan `NbnsScan` describes from the state
+        after the questions (the relation is functional: `NbnsScan.unique`) — the first NBSTAT
+        answer whose array has a unique name wins, malformed or name-less NBSTAT answers and
+        other types are passed over, parser errors end the scan with the error flag — and then
+        either the name is empty, or there is an answer record's RDATA `n :: rest` in the payload
+        (`len` bytes at `off`) with `rest` holding the `n` announced entries, such that the
+        reported name is the head of the reference `nodeNameArray n rest` — which is what
+        `parseNodeNameArray` returns on that RDATA (`nbns_names_eq_spec`) — type "nbns", no error. -/
+theorem processNBNS_name_eq_spec (fuel : Nat) (payload : Bytes) (o : DnsMsg.NbnsOut)
+    (h : DnsMsg.processNBNS fuel payload = .ok o) :
+    (o = { type := [], name := [], err := true } ∧
+      (payload.length < 12 ∨ (∃ e, DnsMsg.start payload = .error e) ∨
+        ∃ p hdr p1 e, DnsMsg.start payload = .ok (p, hdr) ∧ hdr.response = true ∧
+          DnsMsg.skipAllQuestions fuel p = .ok (p1, some e))) ∨
+    (o = { type := [], name := [], err := false } ∧
+      ∃ p hdr, DnsMsg.start payload = .ok (p, hdr) ∧ hdr.response = false) ∨
+    (∃ p hdr p1, DnsMsg.start payload = .ok (p, hdr) ∧ hdr.response = true ∧
+      DnsMsg.skipAllQuestions fuel p = .ok (p1, none) ∧ p1.msg = payload ∧ NbnsScan p1 o ∧
+      ((o.name = [] ∧ o.type = DnsMsg.sNbns) ∨
+       (o.type = DnsMsg.sNbns ∧ o.err = false ∧
+        ∃ (off len : Nat) (n : UInt8) (rest : Bytes) (l : List Bytes),
+          (payload.drop off).take len = n :: rest ∧ 2 ≤ rest.length ∧ n.toNat * 18 ≤ rest.length ∧
+          nodeNameArray n.toNat rest = some (o.name :: l) ∧
+          parseNodeNameArray (n :: rest) = .ok (o.name :: l)))) := by
+  rcases processNBNS_cases fuel payload o h with h1 | h2 | ⟨p, hdr, p1, a, b, c, d, e⟩
+  · exact Or.inl h1
+  · exact Or.inr (Or.inl h2)
+  · refine Or.inr (Or.inr ⟨p, hdr, p1, a, b, c, d, e, ?_⟩)
+    rcases e.name_from with hn | ⟨t1, t2, off, len, n, rest, l, g1, g2, g3, g4⟩
+    · exact Or.inl hn
+    · rw [d] at g1
+      refine Or.inr ⟨t1, t2, off, len, n, rest, l, g1, g2, g3, g4, ?_⟩
+      rw [nbns_names_eq_spec, if_neg (by omega), g4]
+
+/-- with `nbnsBound payload` iterations of fuel (the loop bound the driver uses) every call
+    returns a result — so `processNBNS_name_eq_spec` covers every input -/
+theorem processNBNS_returns (fuel : Nat) (payload : Bytes) (hf : DnsMsg.nbnsBound payload ≤ fuel) :
+    ∃ o, DnsMsg.processNBNS fuel payload = .ok o :=
+  processNBNS_total fuel payload hf
+
 /-! ### non-vacuity -/
 
 /-- `www` + pointer to `example.com` at offset 12: a compressed, well-formed name -/
@@ -502,15 +816,49 @@ theorem sample_owner : decodeName? sampleResp 19 = some ([97], 21, 1) := by
   simp [decodeName?, nameAt?_complete h, wireLen, text]
 
 /-- the hypotheses of `decodeQuestion_eq_spec` / `decodeRR_A_eq_spec` are satisfiable -/
-example : questionAt? sampleResp 12 = some ({ name := [97], qtype := 1, qclass := 1 }, 19) := by
+theorem sample_question : questionAt? sampleResp 12 = some ({ name := [97], qtype := 1, qclass := 1 }, 19) := by
   unfold questionAt?
   rw [sample_q]
   decide
 
-example : rrAt? sampleResp 19 = some ({ name := [97], rtype := 1, rclass := 1, ttl := 60, rdata := [10,0,0,1], rdataOff := 31 }, 35) := by
+theorem sample_rr : rrAt? sampleResp 19 = some ({ name := [97], rtype := 1, rclass := 1, ttl := 60, rdata := [10,0,0,1], rdataOff := 31 }, 35) := by
   unfold rrAt?
   rw [sample_owner]
   decide
+
+/-- the hypotheses of `processDNS_complete` / `processDNS_complete_mem` are satisfiable (one A
+    record with a compressed owner name), and the reference entry is the one ProcessDNS stores -/
+example : ∃ (q : Spec.Question) (qe : Nat) (rrs : List Spec.RR) (o an : Nat),
+    questionAt? sampleResp 12 = some (q, qe) ∧ u16At sampleResp 4 = some 1 ∧ depthAt sampleResp 12 ≤ 254 ∧
+    u16At sampleResp 6 = some an ∧ rrsAt? sampleResp an qe = some (rrs, o) ∧
+    (∀ k pre off r o', k < an → rrsAt? sampleResp k qe = some (pre, off) → rrAt? sampleResp off = some (r, o') →
+      RecOK (fun _ => .invalid) sampleResp off r) ∧
+    refEntry (fun _ => .invalid) sampleResp q.name rrs =
+      { name := [97], ip4 := [{ name := [97], ip := [10,0,0,1], ttl := 60 }], ip6 := [], cname := [], ptr := [] } ∧
+    processDNS (fun _ => .invalid) [] sampleResp =
+      ([([97], refEntry (fun _ => .invalid) sampleResp q.name rrs)],
+        .ok (some (refEntry (fun _ => .invalid) sampleResp q.name rrs))) := by
+  have hrr : rrsAt? sampleResp 1 19 = some ([{ name := [97], rtype := 1, rclass := 1, ttl := 60, rdata := [10,0,0,1], rdataOff := 31 }], 35) := by
+    simp [rrsAt?, sample_rr]
+  have hqd : u16At sampleResp 4 = some 1 := by decide
+  have han : u16At sampleResp 6 = some 1 := by decide
+  have hqdep : depthAt sampleResp 12 ≤ 254 := by simp [depthAt, sample_q]
+  have hok : ∀ k pre off r o', k < 1 → rrsAt? sampleResp k 19 = some (pre, off) → rrAt? sampleResp off = some (r, o') →
+      RecOK (fun _ => .invalid) sampleResp off r := by
+    intro k pre off r o' hk h1 h2
+    have hk0 : k = 0 := by omega
+    subst hk0
+    simp [rrsAt?] at h1
+    obtain ⟨_, rfl⟩ := h1
+    rw [sample_rr] at h2
+    injection h2 with h2
+    injection h2 with h2 _
+    subst h2
+    refine ⟨by simp [depthAt, sample_owner], fun _ => rfl, ?_, ?_, ?_⟩ <;> (intro hh; simp at hh)
+  have hent : refEntry (fun _ => .invalid) sampleResp [97] [{ name := [97], rtype := 1, rclass := 1, ttl := 60, rdata := [10,0,0,1], rdataOff := 31 }] =
+      { name := [97], ip4 := [{ name := [97], ip := [10,0,0,1], ttl := 60 }], ip6 := [], cname := [], ptr := [] } := by decide
+  refine ⟨_, _, _, _, _, sample_question, hqd, hqdep, han, hrr, hok, hent, ?_⟩
+  rw [processDNS_complete _ sampleResp _ _ _ _ _ sample_question hqd hqdep han hrr hok, if_neg (by rw [hent]; decide)]
 
 example : decodeQuestion sampleResp 12 = .ok ({ name := [97], qtype := 1, qclass := 1 }, 19) := by decide
 example : (processDNS (fun _ => .invalid) [] sampleResp).2 =
@@ -527,5 +875,11 @@ example : parseNodeNameArray ([2] ++ [71,32,32,32,32,32,32,32,32,32,32,32,32,32,
 /-- merge: a change is reported and nothing is erased by empty fields -/
 example : (NameEntry.merge { NameEntry.zero with name := [65], model := [66] } { NameEntry.zero with name := [67] })
     = ({ NameEntry.zero with name := [67], model := [66] }, true) := by decide
+
+/-- an NBSTAT response (`sampleNbns`, Lemmas/Nbns.lean) takes the third branch of
+    `processNBNS_name_eq_spec` with a non-empty name: "U1" -/
+example : DnsMsg.processNBNS 5 sampleNbns = .ok { type := DnsMsg.sNbns, name := [85, 49], err := false } ∧
+    firstNodeName ((sampleNbns.drop 23).take 19) = some [85, 49] ∧ DnsMsg.nbnsBound sampleNbns ≤ 6 :=
+  ⟨sample_processNBNS, by decide, by rw [DnsMsg.nbnsBound, sample_start]; decide⟩
 
 end PV.Props.C17
